@@ -43,8 +43,19 @@ fn main() {
                     let sized = d.symbols.format(d, fd, &mut |res: &mut String, _decl, name: &str, bigint: &util::BigInt| {
                         res.push_str(&format!("{}={:x}:{};", name, bigint, bigint.size.map_or("-".to_string(), |s| s.to_string())));
                     });
-                    format!("OK\t{}\t{}\t{}\t{}", bits, a.iterations_taken.unwrap_or(0),
-                        hex(&d.symbols.format_default(d, fd)), sized)
+                    // sixth field: non-integer symbols (booleans, strings) by declaration index: name=bool:0|1 / name=str:hex:encoding
+                    let mut other = String::new();
+                    for i in 0..fd.symbols.len() {
+                        let sym = fd.symbols.get(util::ItemRef::new(i));
+                        let decl = d.symbols.get(util::ItemRef::new(i));
+                        match &sym.value {
+                            expr::Value::Bool(b) => other.push_str(&format!("{}=bool:{};", decl.name, if *b { 1 } else { 0 })),
+                            expr::Value::String(st) => other.push_str(&format!("{}=str:{}:{};", decl.name, hex(&st.utf8_contents), st.encoding)),
+                            _ => {}
+                        }
+                    }
+                    format!("OK\t{}\t{}\t{}\t{}\t{}", bits, a.iterations_taken.unwrap_or(0),
+                        hex(&d.symbols.format_default(d, fd)), sized, other)
                 }
                 (None, true, true) => format!("ERR\t{}", report.len()),
                 (o, e, ae) => format!("INCONSISTENT\toutput={} has_errors={} error={}", o.is_some(), e, ae),
